@@ -33,6 +33,7 @@ func genC01(seed uint64, run int, tier string) *Plan {
 	if r.IntN(8) == 0 {
 		n = 12 + r.IntN(18)
 	}
+	n = deepen(tier, seed, n)
 	tp := TaskPlan{Name: "client"}
 	tp.Ops = append(tp.Ops, g.seedOps(80)...)
 	for i := 0; i < n; i++ {
